@@ -148,6 +148,10 @@ let handle line =
                              let f x = if x then "1" else "0" in
                              "OK " ^ f o.o_eq ^ f o.o_ne ^ f o.o_lt ^ f o.o_le ^ f o.o_gt ^ f o.o_ge ^ " " ^ f h ^ " " ^ (match c with Lt -> "lt" | Eq -> "eq" | Gt -> "gt")
                            | Err e -> "ERR " ^ string_of_err e))
+  | ["refcmp"; cls; a; b] -> (match x_refcmp (coq_string cls) (unhex a) (unhex b) with
+                             | None -> "NOREF"
+                             | Some None -> "OUTSIDE"
+                             | Some (Some c) -> (match c with Lt -> "lt" | Eq -> "eq" | Gt -> "gt"))
   | _ -> "BAD " ^ line
 
 let () =
